@@ -1,6 +1,9 @@
 import Octo.Lemmas.OpsStateless
 import Octo.Lemmas.OpsDistinct
 import Octo.Lemmas.OpsGroupFinal
+import Octo.Lemmas.OpsSortRun
+import Octo.Lemmas.OpsUnnest
+import Octo.Lemmas.OpsBufferProps
 /-!
 # C15 — Operators keep a valid changelog and compute incrementally what batch computes
 
@@ -98,5 +101,111 @@ theorem sgroup_valid_out (agg : GAgg α) (spec : List Row → Row) (hagg : GAggO
   simp only [adds, List.mem_map] at hr
   obtain ⟨_, _, rfl⟩ := hr
   rfl
+
+/-! ## Unnest -/
+theorem unnest_valid_out (idx : Nat) (ms : List Msg) (hi : ∀ r ∈ recs ms, idx < r.vals.length)
+    (hv : ValidLog (recs ms)) : ValidLog (outRecs (unnestOp idx) ms) := by
+  simp only [outRecs, unnest_recs idx ms hi]; exact linear_valid (unnest_linear idx) hv
+
+theorem unnest_net_commutes (idx : Nat) (ms : List Msg) (hi : ∀ r ∈ recs ms, idx < r.vals.length)
+    (rows : List Row) (hc : Consolidates rows (recs ms)) (y : Row) :
+    net (outRecs (unnestOp idx) ms) y = cnt (unnestB idx rows) y := by
+  simp only [outRecs, unnest_recs idx ms hi]
+  rw [linear_net (unnest_linear idx).net_block (unnest_linear idx).congr hc, sumOver_unnestK]
+
+/-! ## Limit: the output is a prefix of the input, hence valid -/
+theorem validLog_of_sublist_prefix {l l' : List Rec} (h : l' <+: l) (hv : ValidLog l) : ValidLog l' := by
+  obtain ⟨t, rfl⟩ := h; exact validLog_prefix hv
+
+theorem limit_out_prefix (n : Int) (ms : List Msg) : ∀ i f, ((limitOp n).runFrom i ms f).1 <+: ms := by
+  induction ms with
+  | nil => intro i f; cases f <;> simp [Op.runFrom, limitOp, propagate]
+  | cons m ms ih =>
+    intro i f
+    cases m with
+    | wm t =>
+      have hstep : (limitOp n).onMsg i (.wm t) = (i, [.wm t], none) := rfl
+      simp only [Op.runFrom, hstep, List.singleton_append]
+      exact (List.prefix_cons_inj _).mpr (ih i f)
+    | data r =>
+      by_cases h : i + 1 = n
+      · have hstep : (limitOp n).onMsg i (.data r) = (i + 1, [.data r], some .limit) := by simp [limitOp, h]
+        simp only [Op.runFrom, hstep]
+        simp [limitOp]
+      · have hstep : (limitOp n).onMsg i (.data r) = (i + 1, [.data r], none) := by simp [limitOp, h]
+        simp only [Op.runFrom, hstep, List.singleton_append]
+        exact (List.prefix_cons_inj _).mpr (ih (i + 1) f)
+
+theorem recs_prefix {a b : List Msg} (h : a <+: b) : recs a <+: recs b := by
+  obtain ⟨t, rfl⟩ := h; rw [recs_append]; exact List.prefix_append _ _
+
+theorem limit_valid_out (n : Int) (ms : List Msg) (f : Bool) (hv : ValidLog (recs ms)) :
+    ValidLog (recs (limitNode n ms f).1) := by
+  simp only [limitNode]
+  split
+  · exact validLog_nil
+  · exact validLog_of_sublist_prefix (recs_prefix (limit_out_prefix n ms 0 f)) hv
+
+/-! ## ORDER BY (OrderSensitiveTransform) and the batch printer: the sorted consolidated input -/
+/-- sortSpec: the node ends with `limit`-many rows of a list that is sorted by the node's `Less`
+    and has exactly the net multiplicities of the input (which determines it up to `Compare == 0`) -/
+theorem order_spec (c : SortCfg) (limit : Option Int) (noRetr : Bool) (hlim : limit = none ∨ noRetr = false)
+    (ms : List Msg) (hv : ValidLog (recs ms)) (hw : ∀ r ∈ recs ms, r.vals.length = c.w) :
+    ∃ full : List Row,
+      (orderOp c.dirs (fun x => .ok (c.kf x)) limit noRetr).run ms = ((takeOpt limit full).map addRec, none) ∧
+      full.Pairwise (fun x y => lessRow c.dirs c.kf y x = false) ∧ ∀ y, cnt full y = net (recs ms) y := by
+  obtain ⟨t, inv, hrun⟩ := order_runFrom c limit noRetr hlim ms [] [] (sinv_init c) (by simpa using hv) hw
+  simp only [List.nil_append] at inv
+  exact ⟨treeRows t, hrun, sinv_rows c t (recs ms) inv hw⟩
+
+theorem order_net_commutes (c : SortCfg) (noRetr : Bool) (ms : List Msg) (hv : ValidLog (recs ms))
+    (hw : ∀ r ∈ recs ms, r.vals.length = c.w) (rows : List Row) (hc : Consolidates rows (recs ms)) (y : Row) :
+    net (outRecs (orderOp c.dirs (fun x => .ok (c.kf x)) none noRetr) ms) y = cnt rows y := by
+  obtain ⟨full, hrun, _, hcnt⟩ := order_spec c none noRetr (Or.inl rfl) ms hv hw
+  simp only [outRecs, hrun, takeOpt, recs_map_addRec, net_adds, hcnt, hc y]
+
+/-- ORDER BY never emits a retraction -/
+theorem order_valid_out (c : SortCfg) (limit : Option Int) (noRetr : Bool) (ms : List Msg) :
+    ValidLog (outRecs (orderOp c.dirs (fun x => .ok (c.kf x)) limit noRetr) ms) := by
+  obtain ⟨l, hl, h⟩ := order_shape c.dirs c.kf limit noRetr ms []
+  simp only [outRecs, Op.run]
+  rw [show (orderOp c.dirs (fun x => .ok (c.kf x)) limit noRetr).init = [] from rfl, hl, recs_map_data,
+    validLog_iff_validFrom]
+  exact validFrom_adds (fun _ => Int.le_refl 0) l (fun r hr => (h r hr).2)
+
+/-- the batch printer's multiset bookkeeping: it panics ("received retraction before value")
+    exactly on invalid changelogs, and otherwise prints the sorted consolidated input -/
+theorem printer_panics_iff_invalid (c : SortCfg) (limit : Option Int) (noRetr : Bool)
+    (hlim : limit = none ∨ noRetr = false) (ms : List Msg) (hw : ∀ r ∈ recs ms, r.vals.length = c.w) :
+    ((printerOp c.dirs (fun x => .ok (c.kf x)) limit noRetr).run ms).2 = some .panic ↔ ¬ ValidLog (recs ms) := by
+  obtain ⟨h1, h2⟩ := printer_runFrom c limit noRetr hlim ms [] [] (sinv_init c) validLog_nil hw
+  simp only [List.nil_append] at h1 h2
+  constructor
+  · intro hp hv
+    obtain ⟨t, _, hrun⟩ := h1 hv
+    simp only [Op.run] at hp
+    rw [show (printerOp c.dirs (fun x => .ok (c.kf x)) limit noRetr).init = [] from rfl, hrun] at hp
+    cases hp
+  · intro hv
+    simp only [Op.run]
+    rw [show (printerOp c.dirs (fun x => .ok (c.kf x)) limit noRetr).init = [] from rfl, h2 hv]
+
+theorem printer_spec (c : SortCfg) (limit : Option Int) (noRetr : Bool) (hlim : limit = none ∨ noRetr = false)
+    (ms : List Msg) (hv : ValidLog (recs ms)) (hw : ∀ r ∈ recs ms, r.vals.length = c.w) :
+    ∃ full : List Row,
+      (printerOp c.dirs (fun x => .ok (c.kf x)) limit noRetr).run ms = ((takeOpt limit full).map addRec, none) ∧
+      full.Pairwise (fun x y => lessRow c.dirs c.kf y x = false) ∧ ∀ y, cnt full y = net (recs ms) y := by
+  obtain ⟨h1, _⟩ := printer_runFrom c limit noRetr hlim ms [] [] (sinv_init c) validLog_nil hw
+  obtain ⟨t, inv, hrun⟩ := h1 (by simpa using hv)
+  simp only [List.nil_append] at inv
+  exact ⟨treeRows t, hrun, sinv_rows c t (recs ms) inv hw⟩
+
+/-! ## EventTimeBuffer: the content is unchanged -/
+theorem etb_net_commutes (ms : List Msg) (hr : InRange ms) (rows : List Row) (hc : Consolidates rows (recs ms))
+    (y : Row) : net (outRecs etbOp ms) y = cnt rows y := by
+  have hrun : etbOp.run ms = (bufSpec [] ms, none) := etb_runFrom ms [] [] List.Pairwise.nil rfl
+  simp only [outRecs, hrun]
+  rw [net_perm (recs_bufSpec_perm ms [] (by simp) hr) y]
+  simpa using hc y
 
 end Octo.C15
